@@ -29,6 +29,23 @@ Theorem C14_get_functions_tiles : forall (A B : Type) (l : list A) (m : list B) 
 Proof. exact @get_functions_tiles. Qed.
 Print Assumptions C14_get_functions_tiles.
 
+(* utils.split_idx, load balance: rank r owns N/P indices plus one when r < N mod P, so any two
+   ranks differ by at most one index and no rank owns more than ceil(N/P). *)
+Theorem C14_split_idx_balanced : forall N P r : Z,
+  0 <= N -> 1 <= P -> 0 <= r < P ->
+  Z.of_nat (length (si_range (split_idx N r P))) = N / P + (if r <? N mod P then 1 else 0).
+Proof. exact split_idx_balanced. Qed.
+Print Assumptions C14_split_idx_balanced.
+
+(* utils.split_idx, pointwise form of the tiling: every index 0 <= i < N is in the range of
+   exactly one rank. *)
+Theorem C14_split_idx_unique_owner : forall N P i : Z,
+  0 <= N -> 1 <= P -> 0 <= i < N ->
+  exists r, 0 <= r < P /\ In i (si_range (split_idx N r P)) /\
+    forall s, 0 <= s < P -> In i (si_range (split_idx N s P)) -> s = r.
+Proof. exact split_idx_unique_owner. Qed.
+Print Assumptions C14_split_idx_unique_owner.
+
 (* non-vacuity: concrete instances, including P > N *)
 Example C14_ex1 : map (fun r => split_idx 7 r 3) [0;1;2] = [Some [0;2]; Some [3;4]; Some [5;6]].
 Proof. vm_compute. reflexivity. Qed.
